@@ -1,0 +1,487 @@
+//! Verification hooks (only compiled with the `verif-hooks` feature).
+//!
+//! Drop-in wrappers around the shared-memory primitives the crate uses (`AtomicU64`,
+//! `AtomicUsize`, `DashMap`, `SegQueue`).  Every wrapper method reports the operation to a
+//! process-wide hook *before* performing it (a scheduler or delay injector may block there: no
+//! lock is held at that point) and once more *after* it with the outcome (informational only; a
+//! hook must not block on an `after` event because a map guard may still be alive).  With no
+//! hook installed the wrappers just forward to the wrapped type.
+//!
+//! Nothing in here changes what the crate computes; with the feature off this module does not
+//! exist and the crate uses the std / dashmap / crossbeam types directly.
+
+use std::fmt;
+use std::hash::Hash;
+use std::ops::Deref;
+use std::panic::Location;
+use std::sync::OnceLock;
+use std::sync::atomic::Ordering;
+
+pub use crate::execution::TransactionList;
+pub use crate::price_level::{PriceLevelSnapshotPackage, PriceLevelStatistics};
+
+/// Kind of shared-memory operation reported to the hook.
+#[derive(Debug, Clone, Copy, PartialEq, Eq, Hash, PartialOrd, Ord)]
+pub enum Op {
+    /// atomic load
+    AtomicLoad,
+    /// atomic store
+    AtomicStore,
+    /// atomic fetch_add
+    AtomicAdd,
+    /// atomic fetch_sub
+    AtomicSub,
+    /// any other atomic read-modify-write (swap, compare_exchange, fetch_max, fetch_min)
+    AtomicRmw,
+    /// map insert
+    MapInsert,
+    /// map remove (also remove_if)
+    MapRemove,
+    /// map get / get_mut / contains_key
+    MapGet,
+    /// map iteration (also retain / clear)
+    MapIter,
+    /// map len / is_empty
+    MapLen,
+    /// queue push
+    QueuePush,
+    /// queue pop
+    QueuePop,
+    /// queue len / is_empty
+    QueueLen,
+}
+
+/// One reported operation.
+#[derive(Debug, Clone, Copy)]
+pub struct Site {
+    /// what is being done
+    pub op: Op,
+    /// address of the object it is done to
+    pub obj: usize,
+    /// before: the operand (atomics) or the key / element (map, queue);
+    /// after: the value returned (atomics) or the key / element concerned
+    pub key: u128,
+    /// false = about to happen (scheduling point), true = has happened (informational)
+    pub after: bool,
+    /// after only: the operation found / returned something
+    pub hit: bool,
+    /// source location of the call inside the crate
+    pub loc: &'static Location<'static>,
+}
+
+static HOOK: OnceLock<fn(&Site)> = OnceLock::new();
+
+/// Installs the process-wide hook.  Returns false if one was installed already.
+pub fn set_hook(hook: fn(&Site)) -> bool {
+    HOOK.set(hook).is_ok()
+}
+
+#[inline]
+fn fire(op: Op, obj: usize, key: u128, after: bool, hit: bool, loc: &'static Location<'static>) {
+    if let Some(hook) = HOOK.get() {
+        hook(&Site {
+            op,
+            obj,
+            key,
+            after,
+            hit,
+            loc,
+        });
+    }
+}
+
+/// Keys and queue elements that can be reported to the hook as a 128-bit number.
+pub trait HookKey {
+    /// the number reported for this value
+    fn hook_key(&self) -> u128;
+}
+
+impl HookKey for crate::orders::OrderId {
+    fn hook_key(&self) -> u128 {
+        u128::from_be_bytes(self.as_bytes())
+    }
+}
+
+macro_rules! hooked_atomic {
+    ($name:ident, $inner:ty, $prim:ty) => {
+        /// Hooked drop-in for the std atomic of the same name.
+        #[derive(Default)]
+        pub struct $name($inner);
+
+        impl $name {
+            /// see the std type
+            pub const fn new(v: $prim) -> Self {
+                Self(<$inner>::new(v))
+            }
+
+            #[inline]
+            fn addr(&self) -> usize {
+                &self.0 as *const $inner as usize
+            }
+
+            /// see the std type
+            #[track_caller]
+            pub fn load(&self, order: Ordering) -> $prim {
+                let loc = Location::caller();
+                fire(Op::AtomicLoad, self.addr(), 0, false, false, loc);
+                let v = self.0.load(order);
+                fire(Op::AtomicLoad, self.addr(), v as u128, true, true, loc);
+                v
+            }
+
+            /// see the std type
+            #[track_caller]
+            pub fn store(&self, v: $prim, order: Ordering) {
+                let loc = Location::caller();
+                fire(Op::AtomicStore, self.addr(), v as u128, false, false, loc);
+                self.0.store(v, order);
+                fire(Op::AtomicStore, self.addr(), v as u128, true, true, loc);
+            }
+
+            /// see the std type
+            #[track_caller]
+            pub fn fetch_add(&self, v: $prim, order: Ordering) -> $prim {
+                let loc = Location::caller();
+                fire(Op::AtomicAdd, self.addr(), v as u128, false, false, loc);
+                let r = self.0.fetch_add(v, order);
+                fire(Op::AtomicAdd, self.addr(), r as u128, true, true, loc);
+                r
+            }
+
+            /// see the std type
+            #[track_caller]
+            pub fn fetch_sub(&self, v: $prim, order: Ordering) -> $prim {
+                let loc = Location::caller();
+                fire(Op::AtomicSub, self.addr(), v as u128, false, false, loc);
+                let r = self.0.fetch_sub(v, order);
+                fire(Op::AtomicSub, self.addr(), r as u128, true, true, loc);
+                r
+            }
+
+            /// see the std type
+            #[track_caller]
+            pub fn swap(&self, v: $prim, order: Ordering) -> $prim {
+                let loc = Location::caller();
+                fire(Op::AtomicRmw, self.addr(), v as u128, false, false, loc);
+                let r = self.0.swap(v, order);
+                fire(Op::AtomicRmw, self.addr(), r as u128, true, true, loc);
+                r
+            }
+
+            /// see the std type
+            #[track_caller]
+            pub fn compare_exchange(
+                &self,
+                current: $prim,
+                new: $prim,
+                success: Ordering,
+                failure: Ordering,
+            ) -> Result<$prim, $prim> {
+                let loc = Location::caller();
+                fire(Op::AtomicRmw, self.addr(), new as u128, false, false, loc);
+                let r = self.0.compare_exchange(current, new, success, failure);
+                let (v, hit) = match r {
+                    Ok(v) => (v, true),
+                    Err(v) => (v, false),
+                };
+                fire(Op::AtomicRmw, self.addr(), v as u128, true, hit, loc);
+                r
+            }
+
+            /// see the std type
+            #[track_caller]
+            pub fn compare_exchange_weak(
+                &self,
+                current: $prim,
+                new: $prim,
+                success: Ordering,
+                failure: Ordering,
+            ) -> Result<$prim, $prim> {
+                let loc = Location::caller();
+                fire(Op::AtomicRmw, self.addr(), new as u128, false, false, loc);
+                let r = self.0.compare_exchange_weak(current, new, success, failure);
+                let (v, hit) = match r {
+                    Ok(v) => (v, true),
+                    Err(v) => (v, false),
+                };
+                fire(Op::AtomicRmw, self.addr(), v as u128, true, hit, loc);
+                r
+            }
+
+            /// see the std type
+            #[track_caller]
+            pub fn fetch_max(&self, v: $prim, order: Ordering) -> $prim {
+                let loc = Location::caller();
+                fire(Op::AtomicRmw, self.addr(), v as u128, false, false, loc);
+                let r = self.0.fetch_max(v, order);
+                fire(Op::AtomicRmw, self.addr(), r as u128, true, true, loc);
+                r
+            }
+
+            /// see the std type
+            #[track_caller]
+            pub fn fetch_min(&self, v: $prim, order: Ordering) -> $prim {
+                let loc = Location::caller();
+                fire(Op::AtomicRmw, self.addr(), v as u128, false, false, loc);
+                let r = self.0.fetch_min(v, order);
+                fire(Op::AtomicRmw, self.addr(), r as u128, true, true, loc);
+                r
+            }
+        }
+
+        impl Deref for $name {
+            type Target = $inner;
+            fn deref(&self) -> &$inner {
+                &self.0
+            }
+        }
+
+        impl fmt::Debug for $name {
+            fn fmt(&self, f: &mut fmt::Formatter<'_>) -> fmt::Result {
+                fmt::Debug::fmt(&self.0, f)
+            }
+        }
+
+        impl From<$prim> for $name {
+            fn from(v: $prim) -> Self {
+                Self::new(v)
+            }
+        }
+
+        impl serde::Serialize for $name {
+            fn serialize<S: serde::Serializer>(&self, serializer: S) -> Result<S::Ok, S::Error> {
+                self.0.serialize(serializer)
+            }
+        }
+
+        impl<'de> serde::Deserialize<'de> for $name {
+            fn deserialize<D: serde::Deserializer<'de>>(deserializer: D) -> Result<Self, D::Error> {
+                <$inner as serde::Deserialize>::deserialize(deserializer).map(Self)
+            }
+        }
+    };
+}
+
+hooked_atomic!(AtomicU64, std::sync::atomic::AtomicU64, u64);
+hooked_atomic!(AtomicUsize, std::sync::atomic::AtomicUsize, usize);
+
+/// Hooked drop-in for `dashmap::DashMap`.
+pub struct DashMap<K, V>(dashmap::DashMap<K, V>);
+
+impl<K: Eq + Hash + HookKey, V> DashMap<K, V> {
+    /// see `dashmap::DashMap`
+    pub fn new() -> Self {
+        Self(dashmap::DashMap::new())
+    }
+
+    #[inline]
+    fn addr(&self) -> usize {
+        &self.0 as *const dashmap::DashMap<K, V> as usize
+    }
+
+    /// see `dashmap::DashMap`
+    #[track_caller]
+    pub fn insert(&self, key: K, value: V) -> Option<V> {
+        let loc = Location::caller();
+        let k = key.hook_key();
+        fire(Op::MapInsert, self.addr(), k, false, false, loc);
+        let r = self.0.insert(key, value);
+        fire(Op::MapInsert, self.addr(), k, true, r.is_some(), loc);
+        r
+    }
+
+    /// see `dashmap::DashMap`
+    #[track_caller]
+    pub fn remove(&self, key: &K) -> Option<(K, V)> {
+        let loc = Location::caller();
+        let k = key.hook_key();
+        fire(Op::MapRemove, self.addr(), k, false, false, loc);
+        let r = self.0.remove(key);
+        fire(Op::MapRemove, self.addr(), k, true, r.is_some(), loc);
+        r
+    }
+
+    /// see `dashmap::DashMap`
+    #[track_caller]
+    pub fn remove_if(&self, key: &K, f: impl FnOnce(&K, &V) -> bool) -> Option<(K, V)> {
+        let loc = Location::caller();
+        let k = key.hook_key();
+        fire(Op::MapRemove, self.addr(), k, false, false, loc);
+        let r = self.0.remove_if(key, f);
+        fire(Op::MapRemove, self.addr(), k, true, r.is_some(), loc);
+        r
+    }
+
+    /// see `dashmap::DashMap`
+    #[track_caller]
+    pub fn get(&self, key: &K) -> Option<dashmap::mapref::one::Ref<'_, K, V>> {
+        let loc = Location::caller();
+        let k = key.hook_key();
+        fire(Op::MapGet, self.addr(), k, false, false, loc);
+        let r = self.0.get(key);
+        fire(Op::MapGet, self.addr(), k, true, r.is_some(), loc);
+        r
+    }
+
+    /// see `dashmap::DashMap`
+    #[track_caller]
+    pub fn get_mut(&self, key: &K) -> Option<dashmap::mapref::one::RefMut<'_, K, V>> {
+        let loc = Location::caller();
+        let k = key.hook_key();
+        fire(Op::MapGet, self.addr(), k, false, false, loc);
+        let r = self.0.get_mut(key);
+        fire(Op::MapGet, self.addr(), k, true, r.is_some(), loc);
+        r
+    }
+
+    /// see `dashmap::DashMap`
+    #[track_caller]
+    pub fn contains_key(&self, key: &K) -> bool {
+        let loc = Location::caller();
+        let k = key.hook_key();
+        fire(Op::MapGet, self.addr(), k, false, false, loc);
+        let r = self.0.contains_key(key);
+        fire(Op::MapGet, self.addr(), k, true, r, loc);
+        r
+    }
+
+    /// see `dashmap::DashMap`
+    #[track_caller]
+    pub fn iter(&self) -> dashmap::iter::Iter<'_, K, V> {
+        let loc = Location::caller();
+        fire(Op::MapIter, self.addr(), 0, false, false, loc);
+        self.0.iter()
+    }
+
+    /// see `dashmap::DashMap`
+    #[track_caller]
+    pub fn retain(&self, f: impl FnMut(&K, &mut V) -> bool) {
+        let loc = Location::caller();
+        fire(Op::MapIter, self.addr(), 1, false, false, loc);
+        self.0.retain(f);
+        fire(Op::MapIter, self.addr(), 1, true, true, loc);
+    }
+
+    /// see `dashmap::DashMap`
+    #[track_caller]
+    pub fn clear(&self) {
+        let loc = Location::caller();
+        fire(Op::MapIter, self.addr(), 2, false, false, loc);
+        self.0.clear();
+        fire(Op::MapIter, self.addr(), 2, true, true, loc);
+    }
+
+    /// see `dashmap::DashMap`
+    #[track_caller]
+    pub fn len(&self) -> usize {
+        let loc = Location::caller();
+        fire(Op::MapLen, self.addr(), 0, false, false, loc);
+        let r = self.0.len();
+        fire(Op::MapLen, self.addr(), r as u128, true, true, loc);
+        r
+    }
+
+    /// see `dashmap::DashMap`
+    #[track_caller]
+    pub fn is_empty(&self) -> bool {
+        let loc = Location::caller();
+        fire(Op::MapLen, self.addr(), 0, false, false, loc);
+        let r = self.0.is_empty();
+        fire(Op::MapLen, self.addr(), r as u128, true, true, loc);
+        r
+    }
+}
+
+impl<K: Eq + Hash + HookKey, V> Default for DashMap<K, V> {
+    fn default() -> Self {
+        Self::new()
+    }
+}
+
+impl<K, V> Deref for DashMap<K, V> {
+    type Target = dashmap::DashMap<K, V>;
+    fn deref(&self) -> &Self::Target {
+        &self.0
+    }
+}
+
+impl<K: Eq + Hash + fmt::Debug, V: fmt::Debug> fmt::Debug for DashMap<K, V> {
+    fn fmt(&self, f: &mut fmt::Formatter<'_>) -> fmt::Result {
+        fmt::Debug::fmt(&self.0, f)
+    }
+}
+
+/// Hooked drop-in for `crossbeam::queue::SegQueue`.
+pub struct SegQueue<T>(crossbeam::queue::SegQueue<T>);
+
+impl<T: HookKey> SegQueue<T> {
+    /// see `crossbeam::queue::SegQueue`
+    pub fn new() -> Self {
+        Self(crossbeam::queue::SegQueue::new())
+    }
+
+    #[inline]
+    fn addr(&self) -> usize {
+        &self.0 as *const crossbeam::queue::SegQueue<T> as usize
+    }
+
+    /// see `crossbeam::queue::SegQueue`
+    #[track_caller]
+    pub fn push(&self, value: T) {
+        let loc = Location::caller();
+        let k = value.hook_key();
+        fire(Op::QueuePush, self.addr(), k, false, false, loc);
+        self.0.push(value);
+        fire(Op::QueuePush, self.addr(), k, true, true, loc);
+    }
+
+    /// see `crossbeam::queue::SegQueue`
+    #[track_caller]
+    pub fn pop(&self) -> Option<T> {
+        let loc = Location::caller();
+        fire(Op::QueuePop, self.addr(), 0, false, false, loc);
+        let r = self.0.pop();
+        let k = r.as_ref().map_or(0, |v| v.hook_key());
+        fire(Op::QueuePop, self.addr(), k, true, r.is_some(), loc);
+        r
+    }
+
+    /// see `crossbeam::queue::SegQueue`
+    #[track_caller]
+    pub fn len(&self) -> usize {
+        let loc = Location::caller();
+        fire(Op::QueueLen, self.addr(), 0, false, false, loc);
+        let r = self.0.len();
+        fire(Op::QueueLen, self.addr(), r as u128, true, true, loc);
+        r
+    }
+
+    /// see `crossbeam::queue::SegQueue`
+    #[track_caller]
+    pub fn is_empty(&self) -> bool {
+        let loc = Location::caller();
+        fire(Op::QueueLen, self.addr(), 0, false, false, loc);
+        let r = self.0.is_empty();
+        fire(Op::QueueLen, self.addr(), r as u128, true, true, loc);
+        r
+    }
+}
+
+impl<T: HookKey> Default for SegQueue<T> {
+    fn default() -> Self {
+        Self::new()
+    }
+}
+
+impl<T> Deref for SegQueue<T> {
+    type Target = crossbeam::queue::SegQueue<T>;
+    fn deref(&self) -> &Self::Target {
+        &self.0
+    }
+}
+
+impl<T> fmt::Debug for SegQueue<T> {
+    fn fmt(&self, f: &mut fmt::Formatter<'_>) -> fmt::Result {
+        fmt::Debug::fmt(&self.0, f)
+    }
+}
